@@ -79,7 +79,8 @@ def run(S):
             any_comment = False
             for i, n in enumerate(kids):
                 is_cmt = T.kind_in(n.kind, {K_LC, K_BC})
-                skip = T.kind_in(n.kind, {K_SP, K_HASH})
+                # whitespace (a paragraph break is whitespace too) and `#` are skipped
+                skip = T.kind_in(n.kind, {K_SP, K_HASH, kt.k('Parbreak')})
                 exp_marked = b_or(b_and(is_cmt, dirs[i]), b_and(b_not(is_cmt), pending, b_not(skip)))
                 exp_rec = b_and(b_not(is_cmt), b_not(b_and(pending, b_not(skip))))
                 got = mp.get(('span', n.nid))
@@ -94,7 +95,7 @@ def run(S):
             if k >= 3:
                 ctx.witness('directive, then space/hash, then node marked',
                             b_and(T.kind_in(kids[0].kind, {K_LC, K_BC}), dirs[0], T.kind_in(kids[1].kind, {K_SP, K_HASH}),
-                                  b_not(T.kind_in(kids[2].kind, {K_LC, K_BC, K_SP, K_HASH}))))
+                                  b_not(T.kind_in(kids[2].kind, {K_LC, K_BC, K_SP, K_HASH, kt.k('Parbreak')}))))
         ob, ex = S.explore('attr.no_format[k=%d]' % k, 'compute_no_format_impl over %d children with symbolic kinds and directive flags' % k, body,
                            bounds=dict(children=k))
         if k >= 3:
@@ -197,6 +198,13 @@ def run(S):
     if callers != {'convert_expr'}:
         found.append(('bypass:convert_expr_impl-called-outside-convert_expr', dict(callers=sorted(callers))))
 
+    # ---- whole documents with directives through the real printer (nothing opaque) ------------------------------------------------
+    from . import deep
+    fdeep, covd = deep.explore(S, deep.OFF_DOCS, want=('C07',))
+    deep.report(S, 'C07', fdeep)
+    if covd['decided'] < covd['docs']:
+        S.inconclusive.append('deep directive documents: %r' % (covd['gaps'][:3],))
+
     # ---- replay --------------------------------------------------------------------------------------------------------
     if found:
         w = native_confirm(S)
@@ -239,6 +247,8 @@ CORPUS = [
     ('math-arg', '$ sin(/* @typstyle off */ a  +  b,   c   d) $\n', 'a  +  b', 'c d)'),
     ('math-inner', '$ x   + /* @typstyle off */ (a  +  b)   c $\n', '(a  +  b)', 'x + /*'),
     ('math-embedded', '$ x /* @typstyle off */ #f(a,   b)   +   y $\n', '#f(a,   b)', '+ y $'),
+    ('blank-line', '/* @typstyle off */\n\n#f( 1 ,2 )\n', '#f( 1 ,2 )', None),
+    ('blank-line-code', '#{\n  // @typstyle off\n\n  let   x  =  ( 1,2 )\n}\n', 'let   x  =  ( 1,2 )', None),
     ('rhs', '#let x = /* @typstyle off */ ( 1,2 )\n#let y = ( 1,2 )\n', '( 1,2 )', 'y = (1, 2)'),
     ('body', '#let f() = /* @typstyle off */ { 1+1 }\n#let g() = { 1+1 }\n', '{ 1+1 }', '{ 1 + 1 }'),
     ('second-node', '// @typstyle off\n#f( 1 ,2 ) #g( 1 ,2 )\n', '#f( 1 ,2 )', 'g(1, 2)'),
